@@ -43,7 +43,7 @@ struct vs_record {
 
 /* event kinds written by the runtime itself (harness kinds start at 100) */
 enum { VS_EV_THREAD_START = 1, VS_EV_THREAD_FINISH = 2, VS_EV_PARK = 3, VS_EV_UNPARK = 4, VS_EV_CREATE = 5,
-       VS_EV_JOINED = 6, VS_EV_SIGNAL = 7, VS_EV_BROADCAST = 8, VS_EV_TIMEOUT = 9 };
+       VS_EV_JOINED = 6, VS_EV_SIGNAL = 7, VS_EV_BROADCAST = 8, VS_EV_TIMEOUT = 9, VS_EV_CREATE_FAILED = 10 };
 
 struct vs_ev { int16_t kind; int16_t tid; int32_t a; int64_t b; };
 
@@ -64,6 +64,7 @@ struct vs_slot {
 struct vs_options {
     int unlock_points;           /* scheduling point after every mutex unlock (needed only for racy code) */
     int horizon;                 /* max scheduling steps per execution */
+    int create_faults;           /* how many times pthread_create may be made to fail with EAGAIN per execution (each costs 1 deviation) */
     int spurious;                /* how many spurious condition-variable wake-ups may be generated per execution (each costs 1 deviation) */
     const uint8_t *prefix; int prefix_len;          /* choices to replay */
     const uint8_t *exp_nalt; const uint32_t *exp_sig; int exp_len; /* expected shape of the replayed part (may be NULL) */
